@@ -748,14 +748,18 @@ fn churn_expected(seed: u64, pid: usize, i: usize, shapes: &[String]) -> (String
                 (0..8 + i % 40).map(|j| serde_json::to_string(&format!("{}/{}", s, j)).unwrap()).collect();
             format!("[{}]", items.join(","))
         }
-        "eval" => format!("[i{},{},{{\"k\":(i{},)}}]", i, js, pid),
+        "eval" => format!("[i{},{},{{\"k\":(i{})}}]", i, js, pid),
         _ => js,
     };
     (shape, e)
 }
 
 enum Parcel {
-    Heap { heap: starlark::values::FrozenHeapRef, v: starlark::values::FrozenValue },
+    Heap {
+        #[allow(dead_code)]
+        heap: starlark::values::FrozenHeapRef,
+        v: starlark::values::FrozenValue,
+    },
     Module { fm: FrozenModule },
     Owned { h: Handle },
 }
